@@ -1648,6 +1648,22 @@ func (a *Activation) varsAtUpto(b *ssa.BasicBlock, atEnd bool, override map[ssa.
 				if ins.Comment != "" {
 					consider(ins.Comment, ins, d+i, false)
 				}
+				if ins.Comment == "rangeindex" {
+					// "rangelen": the length the hidden index of a range-over-slice loop is compared with
+					if refs := ins.Referrers(); refs != nil {
+						for _, r := range *refs {
+							if add, ok := r.(*ssa.BinOp); ok && add.Op == token.ADD {
+								if rr := add.Referrers(); rr != nil {
+									for _, r2 := range *rr {
+										if lt, ok := r2.(*ssa.BinOp); ok && lt.Op == token.LSS && lt.X == add {
+											consider("rangelen", lt.Y, d+i, false)
+										}
+									}
+								}
+							}
+						}
+					}
+				}
 			case *ssa.Alloc:
 				// a source variable that lives in memory is always denoted by its cell
 				if ins.Comment != "" && ins.Comment != "complit" && ins.Comment != "varargs" && !(same && !atEnd) {
@@ -1661,8 +1677,8 @@ func (a *Activation) varsAtUpto(b *ssa.BasicBlock, atEnd bool, override map[ssa.
 				if obj == nil {
 					continue
 				}
-				if _, isVar := obj.(*types.Var); !isVar {
-					continue
+				if vr, isVar := obj.(*types.Var); !isVar || vr.IsField() {
+					continue // a selector x.f refers to the field object f: not a program variable
 				}
 				rank := d + i
 				if ins.IsAddr {
